@@ -111,7 +111,9 @@ func RunOne(t *testing.T, sc *Scenario, tape *Tape, keepText bool) (res RunResul
 			if r := recover(); r != nil {
 				// end-of-bubble deadlock: goroutines left behind. Scenarios are
 				// expected to have reported that as a violation themselves.
-				if s == nil || !s.Failed() {
+				// (A run that recorded a known finding of the "never returns" kind
+				// leaves that goroutine behind as well: same treatment.)
+				if s == nil || (!s.Failed() && len(s.KnownHits()) == 0) {
 					res.Harness = fmt.Sprintf("bubble did not exit cleanly and no violation was recorded: %v", r)
 				}
 			}
